@@ -155,3 +155,19 @@ def _ut_args(prog):
 
 # canaries/engine: a helper that extends the caller's list through an alias (bad) / copies it first (good)
 canary.register("C20", "engine", _ut_args, "UT-ARGS")
+
+
+def _pers_shape(prog):
+    from .rules.c15 import pers_shape_rule
+
+    class Ctx:
+        p = prog
+
+    r = pers_shape_rule(Ctx())
+    if not r.instances and not r.findings:
+        raise RuntimeError("canary: no rebinding update seen")
+    return r.findings
+
+
+# canaries/engine: a buffer rebound to a keepdim statistic (bad) / to a statistic of its own rank (good)
+canary.register("C15", "engine", _pers_shape, "PERS-SHAPE")
